@@ -17,6 +17,8 @@ import (
 	"runtime/debug"
 	"sort"
 	"strings"
+	"testing"
+	"testing/synctest"
 	"time"
 
 	"ssvharness/internal/common"
@@ -116,6 +118,10 @@ type engine struct {
 	impl  func(c Case) string             // runs inside safely
 	line  func(c Case) string             // protocol line for the model ("" = oracle only)
 	share int                             // share of the budget (per mille)
+	// bubble: the entry point calls time.Now() internally; its cases run inside a testing/synctest bubble, where the clock
+	// is the fake one (2000-01-01T00:00:00Z, not advancing while the case runs), so the bytes of a case — and of its
+	// replay — are exactly reproducible
+	bubble bool
 }
 
 var engines []engine
@@ -170,6 +176,14 @@ func evalCases(cases []Case, o *common.Options, rep *common.Report) error {
 		e := findEngine(c.Entry)
 		if e == nil {
 			return fmt.Errorf("unknown entry %q", c.Entry)
+		}
+		if e.bubble && theT != nil {
+			synctest.Test(theT, func(*testing.T) {
+				curNow = time.Now().Unix()
+				nows[i] = curNow
+				results[i] = runCase(e, c)
+			})
+			continue
 		}
 		curNow = time.Now().Unix()
 		nows[i] = curNow
@@ -253,12 +267,22 @@ func sizeBucket(n int) int {
 	return 1 << 30
 }
 
+// theT: the binary is an ordinary command; it enters the testing framework through testing.Main only because
+// testing/synctest needs a *testing.T.
+var theT *testing.T
+
 func main() {
 	if os.Getenv("C06_CHILD") == "httpfwd" {
 		childMain()
 		return
 	}
 	o := common.ParseFlags()
+	testing.Init()
+	testing.Main(func(pat, str string) (bool, error) { return true, nil },
+		[]testing.InternalTest{{Name: "corr_c06", F: func(t *testing.T) { theT = t; realMain(o); os.Exit(0) }}}, nil, nil)
+}
+
+func realMain(o *common.Options) {
 	rep := common.NewReport("C06", o)
 	for _, e := range engines {
 		rep.Engines = append(rep.Engines, "fuzz-"+e.name)
